@@ -124,6 +124,10 @@ func (rl *ruleLoader) objectEndAfterRuleName(lex lexeme.LexEvent) {
 }
 
 func (rl *ruleLoader) ruleValueBegin(lex lexeme.LexEvent) {
+	if lex.Type() == lexeme.NewLine {
+		// In a multi-line annotation the value may stand on the next line.
+		return
+	}
 	if lex.Type() != lexeme.ObjectValueBegin {
 		panic(errors.ErrLoader)
 	}
@@ -131,6 +135,9 @@ func (rl *ruleLoader) ruleValueBegin(lex lexeme.LexEvent) {
 }
 
 func (rl *ruleLoader) ruleValue(lex lexeme.LexEvent) {
+	if lex.Type() == lexeme.NewLine {
+		return
+	}
 	if rl.nodesPerCurrentLineCount == 0 {
 		panic(errors.ErrIncorrectRuleWithoutExample)
 	} else if rl.nodesPerCurrentLineCount != 1 {
